@@ -6,7 +6,7 @@ EXTENDS ModsMC, Json
 VARIABLE hist
 ASSUME PrintT(<<"LIBS", ToJson([id \in LibIds |-> MCLibOf(id)])>>)
 XInit == MCInit /\ hist = <<>>
-XInitFull == MCInitFull /\ hist = <<>>
+XInitFull == MCInitMid /\ hist = <<>>
 XNext == Next /\ hist' = Append(hist, ev')
 Fin == [pc |-> pc, err |-> err, atoms |-> atoms, added |-> SubSeq(inters, Len(inp.base) + 1, Len(inters)), w |-> out.w, reqs |-> reqs]
 Exp == [st |-> PFinal.st, err |-> PFinal.err, atoms |-> PFinal.atoms,
